@@ -2046,11 +2046,13 @@ package go_clipper2
 
 //@ func RectClipPathD
 //@   props C03 C07
+//@   ensures [the-single-path-variant-is-the-paths-variant-at-the-default-precision] !(rect.bottom <= rect.top || rect.right <= rect.left || len(path) == 0) ==> same(result, ScalePaths64ToPathsD(rectClipExec(ScaleRectD(rect, pow10(2)), getPathRectClip, ScalePathsDToPaths64(PathsD{path}, pow10(2))), 1/pow10(2)))
 //@   requires absI(rect.left*pow10(2)) < 2305843009213693952.0 && absI(rect.top*pow10(2)) < 2305843009213693952.0 && absI(rect.right*pow10(2)) < 2305843009213693952.0 && absI(rect.bottom*pow10(2)) < 2305843009213693952.0
 //@   ensures [empty] (rect.bottom <= rect.top || rect.right <= rect.left || len(path) == 0) ==> len(result) == 0
 
 //@ func RectClipLinesPathD
 //@   props C03 C07
+//@   ensures [the-single-path-variant-is-the-paths-variant-at-the-default-precision] !(rect.bottom <= rect.top || rect.right <= rect.left || len(path) == 0) ==> same(result, ScalePaths64ToPathsD(rectClipLinesExec(ScaleRectD(rect, pow10(2)), ScalePathsDToPaths64(PathsD{path}, pow10(2))), 1/pow10(2)))
 //@   requires absI(rect.left*pow10(2)) < 2305843009213693952.0 && absI(rect.top*pow10(2)) < 2305843009213693952.0 && absI(rect.right*pow10(2)) < 2305843009213693952.0 && absI(rect.bottom*pow10(2)) < 2305843009213693952.0
 //@   ensures [empty] (rect.bottom <= rect.top || rect.right <= rect.left || len(path) == 0) ==> len(result) == 0
 
